@@ -10,7 +10,7 @@ RULE = ("case = one BioConsert run (default, BioCo, 5 starter lists) with ALL ra
 EXHAUSTIVE = {"quick": "all 700 datasets of <=2 rankings over 3 elements x 7 BioConsert configurations x both flags",
               "thorough": "quick + all 18275 (<=3 rankings, 3 elements) and 22648 (4 elements) datasets for default/BioCo"}
 ASSUMPTIONS = ["threshold experiments use unit 1024 (penalties are multiples of 1/1024: gains of 1/1024 may remain, "
-               "2/1024 may not)", "move-by-move conformance with spec/LocalSearch.tla is in the un-jitted twin stage"]
+               "2/1024 may not)", "move-by-move conformance with spec/LocalSearch.tla and, as drift, with the transcribed scan order of spec/BioScanDefs.tla is in the un-jitted twin stages"]
 BIO = ["BioConsert", "Bio[]", "BioCo", "Bio[Borda]", "Bio[Copeland,KwikSort]", "Bio[PickAPerm]", "Bio[PickAPerm,Copeland]",
        "Bio[Borda,Copeland,KwikSort]", "Bio[Borda,BordaBid]"]
 SCHEMES = [ac.P_UNI5, ac.P_IND1, ac.P_PSE5, ac.P_UNI1, ac.P_EXT, ac.P_IND5, ac.QUARTER]
@@ -26,9 +26,23 @@ def _nt(rec):
 
 
 def models(tier):
-    return [Model("MC_LocalSearch", "MC_LocalSearch_4.cfg" if tier == "quick" else "MC_LocalSearch_5.cfg",
-                  "the in-place renumbering of _change_bucket/_add_bucket (transcribed) realises the abstract single-"
-                  "element move and keeps bucket ids dense, for every dense vector, element and target")]
+    ms = [Model("MC_LocalSearch", "MC_LocalSearch_4.cfg" if tier == "quick" else "MC_LocalSearch_5.cfg",
+                "the in-place renumbering of _change_bucket/_add_bucket (transcribed) realises the abstract single-"
+                "element move and keeps bucket ids dense, for every dense vector, element and target"),
+          Model("MC_BioScanThm", "MC_BioScanThm_4.cfg" if tier == "quick" else "MC_BioScanThm_5.cfg",
+                "theorem DeltaExact: the cumulated `change`/`add` arrays of the transcribed kernels are exactly the "
+                "score differences of the moves, for EVERY cost table (checked on a basis: both sides are linear)")]
+    what = ("_improve_one_ranking as a state machine in the scan order of the code, from every departure ranking of "
+            "every dataset of the grid: dense ids, max_id_bucket, delta_dist = score difference, every move gains more "
+            "than the threshold, the final ranking is a local optimum")
+    if tier == "quick":
+        cfgs = ["uni5_3_2"]
+    else:
+        cfgs = [f"{s}_3_2" for s in ("uni5", "uni1", "ind1", "pse5", "ext", "odd", "thr")] + \
+               [f"{s}_4_1" for s in ("uni5", "ind1", "pse5", "odd", "thr")] + ["odd_3_3"]
+    ms += [Model("BioScan", f"MC_BioScan_{c}.cfg", what) for c in cfgs]
+    ms.append(Model("BioScan", "MC_BioScan_live_uni5_3_1.cfg", "liveness: under weak fairness the search terminates"))
+    return ms
 
 
 def _search_cases(dss, schemes):
